@@ -107,6 +107,12 @@ type Reg struct {
 	As     []int
 	Kind   int
 	BadOpt int // hostile option appended to the call (C15/C17/C20)
+	// HasCtorOf: the registration call passes the very function value that
+	// registration CtorOf was registered with (one constructor registered twice,
+	// under another name / lifetime). The ledger cannot tell the two apart, so
+	// this is only used where nothing is constructed (Build must fail).
+	HasCtorOf bool
+	CtorOf    int
 	// Dropped: indices into AllProvides() of identities that are removed from
 	// the collection again (Remove / RemoveKeyed) right after the registration
 	// call. The constructor still produces those outputs, but they are not
@@ -177,6 +183,9 @@ func (r Reg) String() string {
 		for _, a := range r.As {
 			sb.WriteString(TypeName(a))
 		}
+	}
+	if r.HasCtorOf {
+		fmt.Fprintf(&sb, " same-function-as=r%d", r.CtorOf)
 	}
 	if len(r.Dropped) > 0 {
 		sb.WriteString(" removed=")
